@@ -23,7 +23,7 @@ RULE = ('random positions world-wide inside the TM band (NSW longitudes for ISG)
 ASSUMPTIONS = ['the functional conversions themselves are judged by C01/C02/C03/C08', 'angle_exact for the denoted latitude/longitude']
 N = {'quick': 600, 'thorough': 10000}
 SHARDS = {'quick': 16, 'thorough': 32}
-REQUIRED_COUNTERS = ['op:geo.cart', 'op:cart.geo', 'op:geo.tm', 'op:tm.geo', 'op:geo.notation', 'op:cart.tm', 'op:tm.cart',
+REQUIRED_COUNTERS = ['alias_conversions', 'op:geo.cart', 'op:cart.geo', 'op:geo.tm', 'op:tm.geo', 'op:geo.notation', 'op:cart.tm', 'op:tm.cart',
                      'chains_closed', 'nval_zero_cases', 'height_zero_cases']
 NOTATIONS = ['float'] + ax.ANGLE_CLASSES
 HSTATES = ['absent', 'zero', 'value']
@@ -294,6 +294,19 @@ def run_chain(ns, ctx, start, ops, rec=True):
         if nxt is None:
             ctx.count('chain_aborted_by_step_failure')
             return
+        if len(op) > 2 and op[2] == 'alias':
+            # the same object converted once more with the other ellipsoid (and judged against the functional API for
+            # that ellipsoid): a memo keyed on the numbers without the ellipsoid answers with the first conversion
+            other = Judge(ns, ctx, 'ans' if start['ell'] == 'grs80' else 'grs80', start['prj'] if start['prj'] == 'utm' else 'utm')
+            if kind == 'cart' and name == 'geo':
+                other.cart_geo(cur, op[1], case)
+            elif kind == 'geo' and name == 'cart':
+                other.geo_cart(cur, case)
+            elif kind == 'geo' and name == 'tm' and start['prj'] == 'utm':
+                other.geo_tm(cur, case)
+            elif kind == 'tm' and name == 'geo' and start['prj'] == 'utm':
+                other.tm_geo(cur, op[1], case)
+            ctx.count('alias_conversions')
         cur, kind = nxt, nk
     # closed chain: bring back to a geographic float coordinate and compare positions
     ctx.judged()
@@ -321,8 +334,10 @@ def gen_ops(rnd, n):
             ops.append([name, rnd.choice(NOTATIONS)])
             kind = 'geo'
         else:
-            ops.append([name])
+            ops.append([name, None])
             kind = name
+        if name != 'notation' and rnd.random() < 0.25:
+            ops[-1] = ops[-1][:2] + ['alias']
     return ops
 
 
